@@ -187,6 +187,12 @@ def build(c, O, cls, module=True, face=True, elastic=True, refdiam=True, pa=1, t
         bad.append(L.gt(H.SI(q["beta"]), mx))
         if cls == "WormWheel":
             bad.append(L.ge(H.SI(q["beta"]), deg90))
+    if cls in ("WormWheel", "WormGear") and c.concrete:
+        # native replay: the tabulated maximum helix angle of this pressure angle (independent L0 data, DESIGN appendix A)
+        mxd = {14.5: 16.0, 20.0: 25.0, 25.0: 35.0, 30.0: 45.0}[float(PRESSURE_ANGLES_DEG[pa])]
+        bad.append(float(H.SI(q["beta"])) > float(mxd * AU.fac("Angle", "deg")) - 1e-11)
+        if cls == "WormWheel":
+            bad.append(float(H.SI(q["beta"])) >= float(deg90) - 1e-11)
     if st == "raise":
         if check:
             O.cover("ctor:rejects")
@@ -412,7 +418,7 @@ def job_bending(cls, role):
         O.cover("returns")
         S = g.bending_stress
         O.prove("bending:is-a-Stress", H.kind(S) == "Stress", props=("C09", "C17"))
-        Y = sym.term_of(g.lewis_factor)
+        Y = float(g.lewis_factor) if c.concrete else sym.term_of(g.lewis_factor)
         if cls != "WormWheel":
             den = L.mul(L.mul(H.SI(q["m"]), H.SI(q["b"])), Y)
         else:
